@@ -555,6 +555,13 @@ def gen_case(rng, mode):
                 err = gen_err(rng, ncustom)
         rules.append({"key": key, "err": err, "qubits": q, "conds": conds, "single_callable": single})
     case["rules"] = rules
+    # Circuit.add(M) re-inserts a basis-rotation gate that is missing from the queue; that only happens after the
+    # (known) defect 'readout rule on a non-measurement gate' has dropped it, and is outside the model: measurements
+    # in the X basis are generated only when no readout rule can reach their H gates
+    if any(r["err"][0] == "readout" and r["key"] in (None, "H") for r in rules):
+        for g in case["gates"]:
+            if g[0] == "M":
+                g[2]["basis"] = "Z"
     return case
 
 
